@@ -438,6 +438,14 @@ func doBatch(s *simT, cmd *proto.Cmd, out *os.File) {
 		writeResult(out, res)
 		return
 	}
+	s.mu.Lock()
+	s.curResps = &resps
+	s.mu.Unlock()
+	defer func() {
+		s.mu.Lock()
+		s.curResps = nil
+		s.mu.Unlock()
+	}()
 	tasks := make([]*task, len(cmd.Reqs))
 	for i := range cmd.Reqs {
 		i := i
